@@ -403,6 +403,30 @@ func vfEarlyCapacity() int {
 	return vfCapacity
 }
 
+// vfLongestPrefixSuffix returns the length of the longest prefix of a that is a suffix of b (prefix function of a+sep+b).
+func vfLongestPrefixSuffix(a, b []byte) int {
+	if len(a) > len(b) {
+		a = a[:len(b)]
+	}
+	t := make([]byte, 0, len(a)+1+len(b))
+	t = append(append(append(t, a...), 0), b...)
+	pi := make([]int, len(t))
+	for i := 1; i < len(t); i++ {
+		k := pi[i-1]
+		for k > 0 && t[i] != t[k] {
+			k = pi[k-1]
+		}
+		if t[i] == t[k] {
+			k++
+		}
+		pi[i] = k
+	}
+	if len(t) == 0 {
+		return 0
+	}
+	return pi[len(t)-1]
+}
+
 // vfTeeVT is the shipped terminal with a tap on its input.
 type vfTeeVT struct {
 	*tty.VT
@@ -428,19 +452,13 @@ func vfCheckStream(got, pre []byte, halTokens []string, insts []*vfInst) (string
 	if bytes.Contains(body, []byte("<post-")) {
 		return "late-output-duplicated", "output logged after detection appears twice"
 	}
-	hStart := len(body)
-	if len(halTokens) > 0 {
-		if i := bytes.Index(body, []byte(halTokens[0])); i >= 0 {
-			hStart = i
-			// include a line prefix such as "[hal] " that precedes the driver name
-			for hStart > 0 && body[hStart-1] != '>' && body[hStart-1] != '\n' && !(body[hStart-1] >= '0' && body[hStart-1] <= '9') && body[hStart-1] != 'e' && body[hStart-1] != '<' {
-				hStart--
-			}
-		}
-	}
+	// the early log on the terminal is the longest prefix of the output that is a suffix of what was logged before
+	// detection (the records are numbered, so nothing else can look like them); whatever the bring-up itself logs -
+	// in whatever wording, before or between the driver messages - comes after it
+	hStart := vfLongestPrefixSuffix(body, pre)
 	early, hal := body[:hStart], body[hStart:]
-	if !bytes.HasSuffix(pre, early) {
-		return "early-log", fmt.Sprintf("the early log on the terminal is not a suffix of what was logged before detection: got %d bytes ending %q", len(early), vfTail(early))
+	if i := bytes.Index(hal, []byte("<e")); i >= 0 {
+		return "early-log", fmt.Sprintf("early log records appear on the terminal out of place (after %d in-order bytes): a record was lost, repeated or reordered: %q", len(early), vfTail(hal[i:]))
 	}
 	capacity := vfEarlyCapacity()
 	if len(pre)+len(hal) <= capacity && len(early) != len(pre) {
